@@ -550,6 +550,18 @@ func requestText(r *reqRec) string {
 	return sb.String()
 }
 
+// laterHop names, for violation keys, a request that is the 2nd or later hop of a redirect chain.
+func laterHop(r *reqRec) string {
+	u, err := url.Parse(r.URL)
+	if err != nil || u.Query().Get("hop") == "" || u.Query().Get("hop") == "0" {
+		return ""
+	}
+	if u.Query().Get("prev") == r.Host {
+		return ":on-a-later-hop-that-stays-on-the-same-foreign-host"
+	}
+	return ":on-a-later-hop"
+}
+
 // realmOfClass: the token realm designated by the 401 challenge of the registry host(s) of a class.
 func (w *world) realmOfClass(class string) string {
 	for n, h := range w.hosts {
@@ -607,7 +619,7 @@ func (w *world) scan(r *reqRec) (leaks []leak, ownSecrets int, unjudged []string
 			// whoever generates the request (fs/remote or the http client it uses).
 			if r.Followed {
 				leaks = append(leaks, leak{
-					key: fmt.Sprintf("header-leak:registry-header-forwarded-when-http-client-follows-redirect:to-%s", role),
+					key: fmt.Sprintf("header-leak:registry-header-forwarded-when-http-client-follows-redirect:to-%s%s", role, laterHop(r)),
 					what: fmt.Sprintf("the net/http client underneath fs/remote followed the redirect of a %s request and forwarded %q (configured for host %s only) to %s (%s %s)",
 						r.Path, m[0], owner, r.Host, r.Method, r.URL),
 					rec: r,
